@@ -28,6 +28,8 @@ def key_reads(f, key):
         if isinstance(keyexpr, ast.Name):
             for a in assignments_to(f, keyexpr.id):
                 v = getattr(a, "value", None)
+                if v is None and isinstance(a, (ast.For, ast.AsyncFor, ast.comprehension)):
+                    v = a.iter          # for key in ("cond", "guard"): ... node[key]
                 if v is not None and any(const_str(x) == key for x in ast.walk(v)):
                     out.append((norm(recv), n))
                     break
